@@ -77,7 +77,11 @@ def unescape_bytes(lit: str) -> bytes:
 _OPS = {ast.Add: operator.add, ast.Sub: operator.sub, ast.Mult: operator.mul, ast.FloorDiv: operator.floordiv}
 
 
-def arith(expr: str) -> int:
+def arith(expr: str, lookup=None) -> int:
+    # a bare identifier (a constant hoisted out of the expression) is resolved through `lookup` (source text to search)
+    mid = re.fullmatch(r"\s*([A-Za-z_]\w*)\s*", expr)
+    if mid and lookup is not None:
+        return const_int(lookup, mid.group(1))
     expr = re.sub(r"\b(\d[\d_]*)(u8|u16|u32|u64|usize|i32|i64)?\b", lambda m: m.group(1).replace("_", ""), expr)
     expr = re.sub(r"\bas\s+\w+", "", expr)
     m = re.fullmatch(r"\s*b'(\\.|[^\\'])'\s*", expr)
@@ -129,8 +133,42 @@ def lean_bytes(b: bytes) -> str:
     return "[" + ", ".join(str(x) for x in b) + "]"
 
 
+LAST = os.path.join(os.path.dirname(os.path.abspath(__file__)), "consts_last.json")
+
+
+def _enc(v):
+    if isinstance(v, bytes): return {"__b": v.hex()}
+    if isinstance(v, (list, tuple)): return [_enc(x) for x in v]
+    if isinstance(v, dict): return {"__d": {k: _enc(x) for k, x in v.items()}}
+    return v
+
+
+def _dec(v):
+    if isinstance(v, dict) and "__b" in v: return bytes.fromhex(v["__b"])
+    if isinstance(v, dict) and "__d" in v: return {k: _dec(x) for k, x in v["__d"].items()}
+    if isinstance(v, list): return [_dec(x) for x in v]
+    return v
+
+
 def main():
+    import json
     d = {}
+    stale = []
+    last = _dec(json.load(open(LAST))) if os.path.exists(LAST) else {}
+    last = {k: v for k, v in (last.items() if isinstance(last, dict) else [])}
+
+    def group(name, keys, fn):
+        """extract one group of constants; if the source no longer has the shape the extractor knows (a constant renamed,
+        hoisted, an expression refactored) the group keeps its LAST extracted values (tools/consts_last.json) and is reported
+        as stale: for those constants the model is then tied to the code by the correspondence run alone."""
+        try:
+            fn()
+        except (ExtractError, KeyError, ValueError, SyntaxError, IndexError, AttributeError, TypeError) as e:
+            if not all(k in last for k in keys):
+                raise ExtractError("%s (%s) and no earlier value to fall back on" % (name, e))
+            for k in keys:
+                d[k] = last[k]
+            stale.append("%s: %s" % (name, e))
     req = read("src/parser/request.rs")
     pm = read("src/parser/mod.rs")
     simd = read("src/parser/simd.rs")
@@ -148,8 +186,10 @@ def main():
         body = fn_body(src, fn)
         m = need(re.search(r"let\s+valid\s*=\s*b\"((?:\\.|[^\"\\])*)\"", body), fn + ".valid")
         return unescape_bytes(m.group(1))
-    d["uriValidBytes"] = valid_lit(req, "make_uri_byte_mask")
-    d["fieldValidBytes"] = valid_lit(pm, "make_header_field_byte_mask")
+    def _g_byte_tables():
+        d["uriValidBytes"] = valid_lit(req, "make_uri_byte_mask")
+        d["fieldValidBytes"] = valid_lit(pm, "make_header_field_byte_mask")
+    group("byte_tables", ['uriValidBytes', 'fieldValidBytes'], _g_byte_tables)
 
     # SWAR constants, per scanner
     def uniforms(fn):
@@ -160,66 +200,87 @@ def main():
             arg = arg.strip()
             res[name] = arith(consts[arg]) if arg in consts else arith(arg)
         return res
-    up = uniforms("swar_match_path_vectored")
-    uu = uniforms("swar_match_uri_vectored")
-    for k in ("ONE", "M128", "QQ", "BM", "DEL"):
-        if k not in up: raise ExtractError("path scanner const " + k)
-    for k in ("ONE", "M128", "BM", "DEL"):
-        if k not in uu: raise ExtractError("uri scanner const " + k)
-    d["swarPath"] = up; d["swarUri"] = uu
-    need(re.search(r"const\s+BLOCK_SIZE\s*:\s*usize\s*=\s*core::mem::size_of::<usize>\(\)", simd), "BLOCK_SIZE")
-    vis = fn_body(simd, "is_visible_ascii")
-    m = need(re.search(r"b\s*>\s*(0x[0-9a-fA-F]+)\s*&&\s*b\s*<\s*(0x[0-9a-fA-F]+)", vis), "is_visible_ascii")
-    d["visLo"], d["visHi"] = int(m.group(1), 16), int(m.group(2), 16)
+    def _g_swar():
+        up = uniforms("swar_match_path_vectored")
+        uu = uniforms("swar_match_uri_vectored")
+        for k in ("ONE", "M128", "QQ", "BM", "DEL"):
+            if k not in up: raise ExtractError("path scanner const " + k)
+        for k in ("ONE", "M128", "BM", "DEL"):
+            if k not in uu: raise ExtractError("uri scanner const " + k)
+        d["swarPath"] = up; d["swarUri"] = uu
+        need(re.search(r"const\s+BLOCK_SIZE\s*:\s*usize\s*=\s*core::mem::size_of::<usize>\(\)", simd), "BLOCK_SIZE")
+        vis = fn_body(simd, "is_visible_ascii")
+        m = need(re.search(r"b\s*>\s*(0x[0-9a-fA-F]+)\s*&&\s*b\s*<\s*(0x[0-9a-fA-F]+)", vis), "is_visible_ascii")
+        d["visLo"], d["visHi"] = int(m.group(1), 16), int(m.group(2), 16)
+    group("swar", ['swarPath', 'swarUri', 'visLo', 'visHi'], _g_swar)
 
     # method table
-    body = fn_body(req, "parse_method")
-    arms = re.findall(r'b"([A-Z]+)"\s*=>\s*Method::(\w+)', body)
-    pre = re.findall(r'strip_prefix\(b"([A-Z]+) "\)', body)
-    d["methodArms"] = arms; d["methodFast"] = pre
-    d["methodStrs"] = re.findall(r'Method::(\w+)\s*=>\s*"([A-Z]+)"', fn_body(meth, "as_str"))
+    def _g_methods():
+        body = fn_body(req, "parse_method")
+        arms = re.findall(r'b"([A-Z]+)"\s*=>\s*Method::(\w+)', body)
+        pre = re.findall(r'strip_prefix\(b"([A-Z]+) "\)', body)
+        d["methodArms"] = arms; d["methodFast"] = pre
+        d["methodStrs"] = re.findall(r'Method::(\w+)\s*=>\s*"([A-Z]+)"', fn_body(meth, "as_str"))
+    group("methods", ['methodArms', 'methodFast', 'methodStrs'], _g_methods)
 
     # printer
-    d["probeMax"] = const_int(pr, "PROBE_MAX")
-    d["inlineCopyMax"] = const_int(pr, "INLINE_COPY_MAX")
-    d["headInitCap"] = const_int(pr, "RESPONSE_HEAD_BUF_INIT_CAP")
-    m = need(re.search(r"\[MaybeUninit<u8>;\s*([^\]]+)\]", fn_body(pr, "write_chunked")), "write_chunked buffer")
-    d["chunkBufSize"] = arith(m.group(1))
-    d["bodyBufSize"] = const_int(br, "BUF_SIZE")
-    d["defaultMaxHead"] = const_int(bld, "DEFAULT_MAX_REQUEST_HEAD")
-    d["defaultReqBuf"] = const_int(srv, "DEFAULT_REQUEST_BUFFER_SIZE")
-    d["maxResponseHead"] = const_int(cli, "MAX_RESPONSE_HEAD")
+    def _g_printer_sizes():
+        d["probeMax"] = const_int(pr, "PROBE_MAX")
+        d["inlineCopyMax"] = const_int(pr, "INLINE_COPY_MAX")
+        d["headInitCap"] = const_int(pr, "RESPONSE_HEAD_BUF_INIT_CAP")
+        m = need(re.search(r"\[MaybeUninit<u8>;\s*([^\]]+)\]", fn_body(pr, "write_chunked")), "write_chunked buffer")
+        d["chunkBufSize"] = arith(m.group(1), pr)
+    group("printer_sizes", ['probeMax', 'inlineCopyMax', 'headInitCap', 'chunkBufSize'], _g_printer_sizes)
+    def _g_buffer_sizes():
+        d["bodyBufSize"] = const_int(br, "BUF_SIZE")
+        d["defaultMaxHead"] = const_int(bld, "DEFAULT_MAX_REQUEST_HEAD")
+        d["defaultReqBuf"] = const_int(srv, "DEFAULT_REQUEST_BUFFER_SIZE")
+        d["maxResponseHead"] = const_int(cli, "MAX_RESPONSE_HEAD")
+    def _g_probe():
+        pb = fn_body(pr, "probe_body")
+        m1 = need(re.search(r"Vec::with_capacity\(([^)]+)\)", pb), "probe_body initial capacity")
+        m2 = need(re.search(r"\.min\(([^)]+)\)\s*;\s*\w+\.reserve\(", pb), "probe_body growth step")
+        d["probeInitCap"] = arith(m1.group(1), pr + "\n" + pb)
+        d["probeStep"] = arith(m2.group(1), pr + "\n" + pb)
+    group("probe_sizes", ["probeInitCap", "probeStep"], _g_probe)
+    group("buffer_sizes", ['bodyBufSize', 'defaultMaxHead', 'defaultReqBuf', 'maxResponseHead'], _g_buffer_sizes)
 
     # date
     # the constants are looked up in the function first and then anywhere in the file (hoisting them to module level is harmless)
-    fb = fn_body(date, "format_http_date") + "\n" + date
-    d["leapoch"] = const_int(fb, "LEAPOCH")
-    d["daysPer400Y"] = const_int(fb, "DAYS_PER_400Y")
-    d["daysPer100Y"] = const_int(fb, "DAYS_PER_100Y")
-    d["daysPer4Y"] = const_int(fb, "DAYS_PER_4Y")
-    d["secsPerDay"] = const_int(fb, "SECS_PER_DAY")
-    d["secsPerHour"] = const_int(fb, "SECS_PER_HOUR")
-    d["secsPerMin"] = const_int(fb, "SECS_PER_MIN")
-    m = need(re.search(r"const\s+MONTHS\s*:[^=]+=\s*\[([^\]]+)\]", fb), "MONTHS")
-    d["months"] = [int(x) for x in m.group(1).replace(" ", "").split(",") if x]
-    d["wdayStrs"] = const_bytes(fb, "WDAY_STRS")
-    d["monStrs"] = const_bytes(fb, "MON_STRS")
-    d["headerTemplate"] = const_bytes(date, "HEADER_TEMPLATE")
+    def _g_date():
+        fb = fn_body(date, "format_http_date") + "\n" + date
+        d["leapoch"] = const_int(fb, "LEAPOCH")
+        d["daysPer400Y"] = const_int(fb, "DAYS_PER_400Y")
+        d["daysPer100Y"] = const_int(fb, "DAYS_PER_100Y")
+        d["daysPer4Y"] = const_int(fb, "DAYS_PER_4Y")
+        d["secsPerDay"] = const_int(fb, "SECS_PER_DAY")
+        d["secsPerHour"] = const_int(fb, "SECS_PER_HOUR")
+        d["secsPerMin"] = const_int(fb, "SECS_PER_MIN")
+        m = need(re.search(r"const\s+MONTHS\s*:[^=]+=\s*\[([^\]]+)\]", fb), "MONTHS")
+        d["months"] = [int(x) for x in m.group(1).replace(" ", "").split(",") if x]
+        d["wdayStrs"] = const_bytes(fb, "WDAY_STRS")
+        d["monStrs"] = const_bytes(fb, "MON_STRS")
+        d["headerTemplate"] = const_bytes(date, "HEADER_TEMPLATE")
+    group("date", ['leapoch', 'daysPer400Y', 'daysPer100Y', 'daysPer4Y', 'secsPerDay', 'secsPerHour', 'secsPerMin', 'months', 'wdayStrs', 'monStrs', 'headerTemplate'], _g_date)
 
     # statuses
-    d["statuses"] = [(int(c), unescape_bytes(r)) for c, r in re.findall(r"(\d{3})\s*=>\s*\w+\s*,\s*\"((?:\\.|[^\"\\])*)\"\s*;", st)]
-    if len(d["statuses"]) < 10: raise ExtractError("define_statuses!")
+    def _g_statuses():
+        d["statuses"] = [(int(c), unescape_bytes(r)) for c, r in re.findall(r"(\d{3})\s*=>\s*\w+\s*,\s*\"((?:\\.|[^\"\\])*)\"\s*;", st)]
+        if len(d["statuses"]) < 10: raise ExtractError("define_statuses!")
+    group("statuses", ['statuses'], _g_statuses)
 
     # router precedence
-    m = need(re.search(r"enum\s+Precedence\s*\{([^}]*)\}", rt), "enum Precedence")
-    d["precedence"] = [(n, int(v)) for n, v in re.findall(r"(\w+)\s*=\s*(\d+)", m.group(1))]
+    def _g_precedence():
+        m = need(re.search(r"enum\s+Precedence\s*\{([^}]*)\}", rt), "enum Precedence")
+        d["precedence"] = [(n, int(v)) for n, v in re.findall(r"(\w+)\s*=\s*(\d+)", m.group(1))]
+    group("precedence", ['precedence'], _g_precedence)
 
     L = []
     L.append("/- GENERATED by tools/gen_consts.py from /repo sources — do not edit. -/")
     L.append("namespace Khttp.Gen\n")
     L.append(f"def uriValidBytes : List UInt8 := {lean_bytes(d['uriValidBytes'])}")
     L.append(f"def fieldValidBytes : List UInt8 := {lean_bytes(d['fieldValidBytes'])}")
-    for tag, u in (("Path", up), ("Uri", uu)):
+    for tag, u in (("Path", d["swarPath"]), ("Uri", d["swarUri"])):
         for k in sorted(u):
             L.append(f"def swar{tag}{k} : UInt8 := {u[k]}")
     L.append(f"def visLo : UInt8 := {d['visLo']}")
@@ -228,7 +289,7 @@ def main():
     L.append("def methodArms : List (List UInt8 × String) := [" + ", ".join(f"({lean_bytes(a.encode())}, \"{b}\")" for a, b in d["methodArms"]) + "]")
     L.append("def methodFast : List (List UInt8) := [" + ", ".join(lean_bytes(a.encode()) for a in d["methodFast"]) + "]")
     L.append("def methodStrs : List (String × List UInt8) := [" + ", ".join(f"(\"{a}\", {lean_bytes(b.encode())})" for a, b in d["methodStrs"]) + "]")
-    for k in ("probeMax", "inlineCopyMax", "headInitCap", "chunkBufSize", "bodyBufSize", "defaultMaxHead", "defaultReqBuf", "maxResponseHead"):
+    for k in ("probeMax", "inlineCopyMax", "headInitCap", "chunkBufSize", "probeInitCap", "probeStep", "bodyBufSize", "defaultMaxHead", "defaultReqBuf", "maxResponseHead"):
         L.append(f"def {k} : Nat := {d[k]}")
     for k in ("leapoch", "daysPer400Y", "daysPer100Y", "daysPer4Y", "secsPerDay", "secsPerHour", "secsPerMin"):
         L.append(f"def {k} : Int := {d[k]}")
@@ -240,6 +301,14 @@ def main():
     L.append("def precedence : List (String × Nat) := [" + ", ".join(f"(\"{n}\", {v})" for n, v in d["precedence"]) + "]")
     L.append("\nend Khttp.Gen\n")
     text = "\n".join(L)
+    if not stale:
+        # remember what was extracted from a source the extractor fully understood
+        enc = json.dumps(_enc(d), sort_keys=True)
+        if not os.path.exists(LAST) or open(LAST).read() != enc:
+            if os.environ.get("KHTTP_UPDATE_CONSTS_LAST") == "1" or not os.path.exists(LAST):
+                open(LAST, "w").write(enc)
+    for s_ in stale:
+        print("gen_consts: STALE", s_)
     out = os.path.normpath(OUT)
     old = open(out).read() if os.path.exists(out) else None
     if old != text:
